@@ -212,6 +212,11 @@ int main(int argc, char* const* argv)
             if (!instance.parse_transaction(ca.m['x'].c_str(), true)) {
                 return 1;
             }
+            if (instance.tx->vin.empty()) {
+                // there is no input to debug; the amounts and the signature checker are indexed by input
+                fprintf(stderr, "error: the transaction given with --tx has no inputs\n");
+                return 1;
+            }
         } catch (std::exception const& ex) {
             fprintf(stderr, "error parsing spending (--tx) transaction: %s\n", ex.what());
             return 1;
